@@ -4,7 +4,7 @@ from .. import scriptprop
 ID = "C03"
 RULE = ("programs over up to 6 set handles of mixed implementation (maps.Set / sync2.Set), all four pairings and self-aliased calls, "
         "concurrent sets aged by Has bursts so that read-only, amended, expunged and freshly promoted layouts occur (layout observed through the verif hook); "
-        "universe 8 quick / 32 thorough; non-trivial = at least one binary operation")
+        "universe 8 quick / 32 thorough; the zero value of maps.Set (nil map) as receiver of the non-mutating methods and as argument; String() also on string-typed members that look like list syntax ([a], b], {d}); non-trivial = at least one binary operation")
 ASSUMPTIONS = ["'shares no state' is observed by continuing to mutate results and operands, not proved", "String formatting"]
 
 
